@@ -9,7 +9,7 @@ C05 ops of the solver's symbolic machinery (`Model/Constraints.lean`, `Model/Con
         | SIGNATURES_CORRECT([t;…],[t;…],z)   with z = what the sighash closure answers for hash type `ht` (`none`: ScriptError)
     c05_solve_machinery coin tx unspents p2sh idx ht keys placeholder
         `Solver(tx).solve(lookup, idx, hash_type=ht, p2sh_lookup=…[, signature_placeholder=…])` of the coin's Solver class:
-        `ok script witness|none`; placeholder := "default" | "none" | hex
+        `ok script witness|none` (an unsolved witness item is printed `none`); placeholder := "default" | "none" | hex
     c05_sign_machinery coin tx unspents p2sh ht keys valid
         one `tx.sign` pass over all inputs with `solve` = the machinery (`Solve.signOne`); `valid` as in `c05_sign_tx`
 -/
@@ -73,7 +73,11 @@ def handle : Handler := fun op args =>
                             ht := effectiveHashType (Gen.Sign.forkidCoins.contains coin) ht, placeholder := ph }
     match Solve.solve sa (ctxOf tx idx) (puzzleOf us idx) tin.script tin.witness with
     | .error e => some ("err " ++ e.tag)
-    | .ok (sc, w) => some s!"ok {hx sc} {match w with | none => "none" | some w => showWitness w}"
+    | .ok (sc, w) =>
+      let sw := match w with
+        | none => "none"
+        | some w => if w.isEmpty then "~" else "/".intercalate (w.map fun o => match o with | some b => hx b | none => "none")
+      some s!"ok {hx sc} {sw}"
   | "c05_sign_machinery", [coin, tx, us, p2sh, ht, keys, valid] => do
     let tx ← parseTx? tx
     let us ← parseUnspents? us
